@@ -901,6 +901,18 @@ func (fc *FuncCtx) callPure(env *Env, pf *PureFunc, args []Val) Val {
 				fc.specHdr = append(fc.specHdr, "(assert (= "+app+" "+body.T+"))")
 			}
 		} else {
+			// ghost state: the function also depends on the listed heap components
+			var rec []string
+			if len(pf.Reads) > 0 {
+				renv := &Env{fc: fc, vars: map[string]Val{}, lets: map[string]Expr{}, st: env.st, old: env.old, pkg: ppkg}
+				for _, l := range fc.parseModifies(renv, pf.Reads) {
+					if l.comp != "" {
+						rec = append(rec, l.comp)
+						ps = append(ps, fc.compSort[l.comp])
+					}
+				}
+			}
+			fc.opaqueComps[name] = rec
 			fc.specHdr = append(fc.specHdr, fmt.Sprintf("(declare-fun %s (%s) %s)", name, strings.Join(ps, " "), rs))
 			fc.emitAxiomsMentioning(pf.Name)
 		}
